@@ -42,6 +42,12 @@ CLAIMED = {
  "C05": dict(cat="other", technique="CrossHair: pairing units over symbolic integer ranges (unbounded endpoints), framed token soups and solver-chosen mutants through the real scan_file with every C05 clause asserted, _analyze_file with symbolic measurement list",
              text="Unit layer is unbounded in all range endpoints (<= 2 headers, <= 3 blocks, every ordering/nesting); the end-to-end layers are bounded (2-3 symbolic tokens inside a function frame, single edits of canonical programs).",
              ref="DESIGN.md 3/C05"),
+ "C07": dict(cat="other", technique="CrossHair on the real Codebase/LanguageTotals/ScanTotals/SourceFileEntry with measurement values and insertion order as solver variables, oracle computed from the path strings",
+             text="Bounded in shape (sets of <= 4 paths of depth <= 3 from a pool; seeded sample in quick, all in thorough), unbounded in the symbolic measurement values; every identity of the statement is asserted after aggregate().",
+             ref="DESIGN.md 3/C07"),
+ "C08": dict(cat="other", technique="solver-driven exhaustive selection of hostile strings (pool^<=N, one field at a time) through the real ReportWriter (pretty+compact), json.loads, ReportReader and a second writer pass; document value oracle independent of the writer",
+             text="Bounded-exhaustive through the solver: every string up to N characters over a 19-character pool in each of 12 string fields for several report shapes. Symbolic strings through the json module were probed and are not decidable with CrossHair (stated in DESIGN.md); integers are concrete sentinels.",
+             ref="DESIGN.md 3/C08"),
 }
 NA = {}
 def main():
